@@ -922,8 +922,8 @@ MUTANTS = [
         insert_stmt("CountMinSketch", "__init__", "self._half = 0", before="self.__elements_added = 0"),
         insert_stmt("CountMinSketch", "__init__", "self._half = self.depth // 2", after="self._bins = array("),
         insert_stmt("CountMinSketch", "_parse_bytes", "self._half = self.depth // 2", at_end=True)), expect="silent"),
-    Mutant("jaccard-style shortcut stores the estimate sentinel into the element count in one more place", _B,
-           insert_stmt("BloomFilter", "clear", "self._els_added = self.estimate_elements()", at_end=True), rule="C05.unsigned"),
+    Mutant("the estimate sentinel is also stored into another unsigned footer field (est_elements)", _B,
+           insert_stmt("BloomFilter", "clear", "self._est_elements = self.estimate_elements()", at_end=True), rule="C05.unsigned"),
     Mutant("the estimate is clamped at 0 before it becomes the element count (no negative reaches the slot)", _B,
            insert_stmt("BloomFilter", "clear", "self._els_added = max(self.estimate_elements(), 0)", at_end=True), expect="silent"),
     Mutant("expanding __load forgets the total", _E, del_stmt("ExpandingBloomFilter", "__load", "self._added_elements = els_added"), rule="C05.slot"),
